@@ -1214,7 +1214,7 @@ class OFConnection (object):
           err = ofp_error(type=OFPET_HELLO_FAILED, code=OFPHFC_INCOMPATIBLE)
           #err = ofp_error(type=OFPET_BAD_REQUEST, code=OFPBRC_BAD_VERSION)
           err.xid = self._extract_message_xid(message)
-          err.data = 'Version unsupported'
+          err.data = b'Version unsupported'
           self.send(err)
         self.close()
         return False
